@@ -44,13 +44,31 @@ def snapshot(d, skip=(), norm=()):
     return out
 
 
-def make_files(rng, d, kind):
-    """writes in.agp / in.tpf / in.fa (same assembly: one forward contig per record, no gaps inside records) + ptx.agp"""
+def make_files(rng, d, kind, dirty=False):
+    """writes in.agp / in.tpf / in.fa (same assembly: one forward contig per record, no gaps inside records) + ptx.agp.
+    dirty=True: in.fa (only) additionally carries N-runs, IUPAC ambiguity codes and lower case, so that the index assembly has
+    several contigs per record and the non-ACGT handling is exercised under every configuration (in.agp / in.tpf then do NOT
+    describe the same assembly and must not be used)."""
     recs = F.rand_records(rng, nrec=rng.randint(2, 4), maxlen=400)
     for i, r in enumerate(recs):
         r["name"] = f"scaf{i+1}"; r["desc"] = None
         r["seq"] = bytes(rng.choice(b"ACGT") for _ in range(max(30, len(r["seq"]))))
-    (d / "in.fa").write_bytes(F.render(recs, 60))
+    if dirty:
+        fa_recs = []
+        for r in recs:
+            b = bytearray(r["seq"])
+            for _ in range(rng.randint(1, 4)):
+                k = rng.random(); pos = rng.randrange(1, len(b) - 1)
+                if k < 0.4:
+                    b[pos] = rng.choice(b"RYKMSWBDHVryk")             # isolated ambiguity code
+                elif k < 0.8:
+                    n = rng.randint(1, 25); b[pos:pos + n] = (b"N" if rng.random() < 0.8 else b"n") * min(n, len(b) - pos - 1)
+                else:
+                    n = rng.randint(1, 10); b[pos:pos + n] = bytes(b[pos:pos + n]).lower()
+            fa_recs.append(dict(r, seq=bytes(b)))
+        (d / "in.fa").write_bytes(F.render(fa_recs, rng.choice([60, 60, 11, 200])))
+    else:
+        (d / "in.fa").write_bytes(F.render(recs, 60))
     inp = [conv.jscaffold(r["name"], [conv.jfrag(i, r["name"], 1, len(r["seq"]), 1)]) for i, r in enumerate(recs)]
     (d / "in.agp").write_text(R.agp_text(inp))
     (d / "in.tpf").write_text(T.real_format({"header": [], "scaffolds": inp}, "tpf")["ok"])
@@ -97,13 +115,16 @@ def scenario_subprocess(ctx, sc, tag):
     base.mkdir()
     src = base / "src"; src.mkdir()
     kind = rng.choice(["script", "tagged", "multitag", "multitag", "tie"])
-    make_files(rng, src, kind)
+    dirty = kind in ("script", "tagged") and rng.random() < 0.6
+    make_files(rng, src, kind, dirty=dirty)
     use_fa = (src / "in.fa").exists()
     confs = []
     for hs in ([0, 1, 2, 3, 5, 12345] if ctx.thorough else [0, 1, 7, 12345]):
         confs.append({"hashseed": hs, "buf": "-", "cwd": "a", "fmt": "fa", "warm": False})
     confs.append({"hashseed": 1, "buf": 7, "cwd": "b", "fmt": "fa", "warm": False})
     confs.append({"hashseed": 2, "buf": 61, "cwd": "a", "fmt": "fa", "warm": True})
+    if dirty:
+        confs.append({"hashseed": 0, "buf": rng.choice([13, 29, 100, 300]), "cwd": "a", "fmt": "fa", "warm": False})
     ref = None
     for k, cf in enumerate(confs):
         d = base / f"run{k}"; d.mkdir()
@@ -119,7 +140,7 @@ def scenario_subprocess(ctx, sc, tag):
         rc, so, se = run_sub(wd, cf["hashseed"], cf["buf"], "pretext-to-asm", ["-a", d / infile, "-p", d / "ptx.agp", "-o", d / outfile])
         snap = snapshot(d, skip=("in.fa", "in.agp", "ptx.agp", "in.fa.fai", "in.fa.agp"), norm=(d, wd))
         snap["<exit>"] = str(rc).encode()
-        inp = {"scenario": "subprocess", "conf": cf, "kind": kind, "pretext": (src / "ptx.agp").read_text()[:2000], "input": (src / ("in.fa" if use_fa else "in.agp")).read_text()[:600]}
+        inp = {"scenario": "subprocess", "conf": cf, "kind": kind + ("+dirty-fasta" if dirty else ""), "pretext": (src / "ptx.agp").read_text()[:2000], "input": (src / ("in.fa" if use_fa else "in.agp")).read_text()[:600]}
         out.case("hashseed-cwd-buffer-cache", inp, ("sub", cf["hashseed"], cf["buf"], cf["cwd"], cf["warm"]))
         if ref is None:
             ref = snap
